@@ -310,30 +310,49 @@ Section VMFit.
   Proof. destruct xk, xm; repeat split; reflexivity. Qed.
   Definition VM_call (s : D) : fitcall R :=
     mkfit "vonmises" [vk s] ([("loc", vm s); ("scale", 1)] ++ ([("fscale", 1)] ++ okw "floc" (vfm s) ++ okw "f0" (vfk s))).
+  Definition VM_fix_mu (s : D) (m : R) : R := match vfm s with Some v => v | None => m end.
   Lemma VM_fit_unfold fit s :
     VonMisesDistribution__fit_mle RN fit s =
     match fit (VM_call s) with
-    | [k; m; _] => Ok {| VonMisesDistribution_kappa := k; VonMisesDistribution_mu := m;
+    | [k; m; _] => Ok {| VonMisesDistribution_kappa := k; VonMisesDistribution_mu := VM_fix_mu s m;
                          VonMisesDistribution_f_kappa := vfk s; VonMisesDistribution_f_mu := vfm s |}
     | _ => Err "ValueError:unpack"
     end.
-  Proof. destruct s as [k m [xk|] [xm|]]; reflexivity. Qed.
+  Proof. destruct s as [k m [xk|] [xm|]]; cbn; destruct (fit _) as [|r1 [|r2 [|r3 [|r4 l]]]]; reflexivity. Qed.
   Lemma VM_keys_valid s : forallb (fun kv => key_ok "vonmises" (fst kv)) (f_kw (VM_call s)) = true.
   Proof. destruct s as [k m [xk|] [xm|]]; reflexivity. Qed.
-  Lemma VM_fit_fixed fit s : fit_contract fit ->
+  (* scipy's vonmises.fit returns the location WRAPPED into [-pi, pi], so the
+     "a fixed floc comes back exactly" clause of fit_contract is false for this
+     family (found by the C11 correspondence, repaired in /repo by re-assigning
+     f_mu after the fit).  The theorem therefore uses only the length clause and
+     the f0 clause of the oracle contract; the fixed mu is kept by the CODE. *)
+  Definition vm_contract (fit : fitcall R -> list R) : Prop :=
+    (forall fc, List.length (fit fc) = 3%nat) /\
+    (forall fc v, In ("f0", v) (f_kw fc) -> nth_error (fit fc) 0 = Some v).
+  Lemma fit_contract_vm fit : fit_contract fit ->
+    (forall fc, f_family fc = "vonmises" -> List.length (fit fc) = 3%nat) /\
+    (forall fc v, f_family fc = "vonmises" -> In ("f0", v) (f_kw fc) -> nth_error (fit fc) 0 = Some v).
+  Proof.
+    intros [HL HF]. split.
+    - intros fc E. rewrite HL, E. reflexivity.
+    - intros fc v E I. apply (HF fc "f0" v 0%nat I). rewrite E. reflexivity.
+  Qed.
+  Lemma VM_fit_fixed fit s : vm_contract fit ->
     exists s', VonMisesDistribution__fit_mle RN fit s = Ok s' /\
       (forall v, vfk s = Some v -> vk s' = v) /\ (forall v, vfm s = Some v -> vm s' = v) /\
       vfk s' = vfk s /\ vfm s' = vfm s /\
-      c_params (VonMisesDistribution_cdf s' None None) = firstn 2 (fit (VM_call s)).
+      c_params (VonMisesDistribution_cdf s' None None) =
+        [nth 0 (fit (VM_call s)) 0; VM_fix_mu s (nth 1 (fit (VM_call s)) 0)].
   Proof.
     intros [HL HF]. rewrite VM_fit_unfold. pose proof (HL (VM_call s)) as L. pose proof (HF (VM_call s)) as F.
     destruct (fit (VM_call s)) as [|r1 [|r2 [|r3 [|r4 l]]]]; try discriminate L.
     eexists. split; [reflexivity|]. cbn [vk vm vfk vfm].
     repeat split.
-    - intros v E. fixed_case F "f0" v 0%nat E.
-      assert (X : Some r1 = Some v) by (apply F; [|reflexivity]; solve_in). now inversion X.
-    - intros v E. fixed_case F "floc" v 1%nat E.
-      assert (X : Some r2 = Some v) by (apply F; [|reflexivity]; solve_in). now inversion X.
+    - intros v E.
+      assert (X : Some r1 = Some v).
+      { apply F. unfold VM_call. cbn [f_kw]. rewrite E. destruct (vfm s); cbn; auto 10. }
+      now inversion X.
+    - intros v E. unfold VM_fix_mu. now rewrite E.
   Qed.
 
 End VMFit.
